@@ -32,69 +32,80 @@ mod opt_cols__par;
 mod opt_cols__srcto;
 mod same_gen__ser;
 mod same_gen__permpar;
-mod two_inputs__par;
-mod two_inputs__src1;
-mod two_inputs__perm2;
-mod wild__pari;
-mod ternary__str;
-mod bound_mix__ren;
-mod join_chain__perm1;
-mod cond_simple_join__par;
-mod zero_arity__par;
-mod lag_right__to;
-mod lag_right__strpar;
-mod lag_three__pari;
-mod lag_mid__ren;
-mod lag_late_delta__to;
-mod multi_head_rec__exppar;
-mod sp_dual__gen;
-mod sp_dual__srcpar;
-mod sp_weighted__to;
-mod set_reach__par;
-mod set_reach__src1;
-mod bset__par;
-mod cp__topar;
-mod bool_lat__par;
-mod lat_multi_improve__to;
-mod lat_input__to;
-mod lat_input__srcto;
-mod count_paths__to;
-mod count_paths__srcto;
-mod neg_basic__to;
-mod neg_basic__srcto;
-mod neg_basic__permpar;
-mod agg_depth__pari;
-mod agg_user__ser;
-mod agg_bound_mix__ser;
-mod agg_empty_rel__ser;
-mod agg_const_args__exp;
-mod disj__mrt;
-mod disj__runpar;
-mod disj_nested__ser;
-mod pat_args__exp;
-mod multi_head_disj__par;
-mod neg_in_disj__exppar;
-mod mac_basic__gen;
-mod mac_basic__srcpar;
-mod mac_nested__ser;
-mod mac_gensym_disj__exp;
-mod rnd_core_01__par;
-mod rnd_core_04__ser;
-mod rnd_core_06__pari;
-mod rnd_core_09__par;
-mod rnd_core_12__ser;
-mod rnd_core_14__pari;
-mod rnd_core_17__par;
-mod rnd_core_20__ser;
-mod rnd_core_22__pari;
-mod rnd_core_25__par;
-mod rnd_core_28__ser;
-mod rnd_core_30__pari;
-mod rnd_agg_03__par;
-mod rnd_agg_06__ser;
-mod rnd_agg_08__pari;
-mod rnd_agg_11__par;
-mod rnd_agg_14__ser;
+mod not_reorderable__topar;
+mod pre_join_rec__to;
+mod two_inputs__pari;
+mod two_inputs__src2;
+mod two_inputs__ren;
+mod ternary__ser;
+mod ternary__u64;
+mod bound_mix__permpar;
+mod join_chain__perm2;
+mod cond_simple_join__pari;
+mod zero_arity__pari;
+mod lag_right__topar;
+mod lag_left__ser;
+mod lag_three__to;
+mod lag_mid__permpar;
+mod lag_late_delta__topar;
+mod sp_dual__ser;
+mod sp_dual__src0;
+mod sp_dual__perm1;
+mod sp_weighted__topar;
+mod set_reach__pari;
+mod set_reach__src2;
+mod bset__pari;
+mod opt_lat__ser;
+mod bool_lat__pari;
+mod lat_multi_improve__topar;
+mod lat_count_all__pari;
+mod lat_input__topar;
+mod lat_input__redecl;
+mod count_paths__topar;
+mod count_paths__redecl;
+mod neg_basic__topar;
+mod neg_basic__redecl;
+mod neg_basic__exp;
+mod agg_depth__to;
+mod agg_user__par;
+mod agg_bound_mix__par;
+mod agg_empty_rel__par;
+mod agg_const_args__exppar;
+mod disj__topar;
+mod disj__redecl;
+mod disj__exp;
+mod pat_args__par;
+mod rep_expr__exppar;
+mod neg_in_disj__pari;
+mod mac_basic__run;
+mod mac_basic__init;
+mod mac_capture__exp;
+mod mac_gensym_disj__par;
+mod mac_disj__exppar;
+mod rnd_core_03__par;
+mod rnd_core_06__ser;
+mod rnd_core_08__pari;
+mod rnd_core_11__par;
+mod rnd_core_14__ser;
+mod rnd_core_16__pari;
+mod rnd_core_19__par;
+mod rnd_core_22__ser;
+mod rnd_core_24__pari;
+mod rnd_core_27__par;
+mod rnd_core_30__ser;
+mod rnd_agg_02__pari;
+mod rnd_agg_05__par;
+mod rnd_agg_08__ser;
+mod rnd_agg_10__pari;
+mod rnd_agg_13__par;
+mod rnd_prec_01__ser;
+mod rnd_prec_02__to;
+mod rnd_prec_04__par;
+mod rnd_prec_05__topar;
+mod rnd_prec_07__pari;
+mod rnd_prea_01__ser;
+mod rnd_prea_03__pari;
+mod rnd_prea_06__par;
 
 fn lookup(name: &str) -> fn() -> Box<dyn Driven> {
    match name {
@@ -122,69 +133,80 @@ fn lookup(name: &str) -> fn() -> Box<dyn Driven> {
       "opt_cols__srcto" => opt_cols__srcto::make,
       "same_gen__ser" => same_gen__ser::make,
       "same_gen__permpar" => same_gen__permpar::make,
-      "two_inputs__par" => two_inputs__par::make,
-      "two_inputs__src1" => two_inputs__src1::make,
-      "two_inputs__perm2" => two_inputs__perm2::make,
-      "wild__pari" => wild__pari::make,
-      "ternary__str" => ternary__str::make,
-      "bound_mix__ren" => bound_mix__ren::make,
-      "join_chain__perm1" => join_chain__perm1::make,
-      "cond_simple_join__par" => cond_simple_join__par::make,
-      "zero_arity__par" => zero_arity__par::make,
-      "lag_right__to" => lag_right__to::make,
-      "lag_right__strpar" => lag_right__strpar::make,
-      "lag_three__pari" => lag_three__pari::make,
-      "lag_mid__ren" => lag_mid__ren::make,
-      "lag_late_delta__to" => lag_late_delta__to::make,
-      "multi_head_rec__exppar" => multi_head_rec__exppar::make,
-      "sp_dual__gen" => sp_dual__gen::make,
-      "sp_dual__srcpar" => sp_dual__srcpar::make,
-      "sp_weighted__to" => sp_weighted__to::make,
-      "set_reach__par" => set_reach__par::make,
-      "set_reach__src1" => set_reach__src1::make,
-      "bset__par" => bset__par::make,
-      "cp__topar" => cp__topar::make,
-      "bool_lat__par" => bool_lat__par::make,
-      "lat_multi_improve__to" => lat_multi_improve__to::make,
-      "lat_input__to" => lat_input__to::make,
-      "lat_input__srcto" => lat_input__srcto::make,
-      "count_paths__to" => count_paths__to::make,
-      "count_paths__srcto" => count_paths__srcto::make,
-      "neg_basic__to" => neg_basic__to::make,
-      "neg_basic__srcto" => neg_basic__srcto::make,
-      "neg_basic__permpar" => neg_basic__permpar::make,
-      "agg_depth__pari" => agg_depth__pari::make,
-      "agg_user__ser" => agg_user__ser::make,
-      "agg_bound_mix__ser" => agg_bound_mix__ser::make,
-      "agg_empty_rel__ser" => agg_empty_rel__ser::make,
-      "agg_const_args__exp" => agg_const_args__exp::make,
-      "disj__mrt" => disj__mrt::make,
-      "disj__runpar" => disj__runpar::make,
-      "disj_nested__ser" => disj_nested__ser::make,
-      "pat_args__exp" => pat_args__exp::make,
-      "multi_head_disj__par" => multi_head_disj__par::make,
-      "neg_in_disj__exppar" => neg_in_disj__exppar::make,
-      "mac_basic__gen" => mac_basic__gen::make,
-      "mac_basic__srcpar" => mac_basic__srcpar::make,
-      "mac_nested__ser" => mac_nested__ser::make,
-      "mac_gensym_disj__exp" => mac_gensym_disj__exp::make,
-      "rnd_core_01__par" => rnd_core_01__par::make,
-      "rnd_core_04__ser" => rnd_core_04__ser::make,
-      "rnd_core_06__pari" => rnd_core_06__pari::make,
-      "rnd_core_09__par" => rnd_core_09__par::make,
-      "rnd_core_12__ser" => rnd_core_12__ser::make,
-      "rnd_core_14__pari" => rnd_core_14__pari::make,
-      "rnd_core_17__par" => rnd_core_17__par::make,
-      "rnd_core_20__ser" => rnd_core_20__ser::make,
-      "rnd_core_22__pari" => rnd_core_22__pari::make,
-      "rnd_core_25__par" => rnd_core_25__par::make,
-      "rnd_core_28__ser" => rnd_core_28__ser::make,
-      "rnd_core_30__pari" => rnd_core_30__pari::make,
-      "rnd_agg_03__par" => rnd_agg_03__par::make,
-      "rnd_agg_06__ser" => rnd_agg_06__ser::make,
-      "rnd_agg_08__pari" => rnd_agg_08__pari::make,
-      "rnd_agg_11__par" => rnd_agg_11__par::make,
-      "rnd_agg_14__ser" => rnd_agg_14__ser::make,
+      "not_reorderable__topar" => not_reorderable__topar::make,
+      "pre_join_rec__to" => pre_join_rec__to::make,
+      "two_inputs__pari" => two_inputs__pari::make,
+      "two_inputs__src2" => two_inputs__src2::make,
+      "two_inputs__ren" => two_inputs__ren::make,
+      "ternary__ser" => ternary__ser::make,
+      "ternary__u64" => ternary__u64::make,
+      "bound_mix__permpar" => bound_mix__permpar::make,
+      "join_chain__perm2" => join_chain__perm2::make,
+      "cond_simple_join__pari" => cond_simple_join__pari::make,
+      "zero_arity__pari" => zero_arity__pari::make,
+      "lag_right__topar" => lag_right__topar::make,
+      "lag_left__ser" => lag_left__ser::make,
+      "lag_three__to" => lag_three__to::make,
+      "lag_mid__permpar" => lag_mid__permpar::make,
+      "lag_late_delta__topar" => lag_late_delta__topar::make,
+      "sp_dual__ser" => sp_dual__ser::make,
+      "sp_dual__src0" => sp_dual__src0::make,
+      "sp_dual__perm1" => sp_dual__perm1::make,
+      "sp_weighted__topar" => sp_weighted__topar::make,
+      "set_reach__pari" => set_reach__pari::make,
+      "set_reach__src2" => set_reach__src2::make,
+      "bset__pari" => bset__pari::make,
+      "opt_lat__ser" => opt_lat__ser::make,
+      "bool_lat__pari" => bool_lat__pari::make,
+      "lat_multi_improve__topar" => lat_multi_improve__topar::make,
+      "lat_count_all__pari" => lat_count_all__pari::make,
+      "lat_input__topar" => lat_input__topar::make,
+      "lat_input__redecl" => lat_input__redecl::make,
+      "count_paths__topar" => count_paths__topar::make,
+      "count_paths__redecl" => count_paths__redecl::make,
+      "neg_basic__topar" => neg_basic__topar::make,
+      "neg_basic__redecl" => neg_basic__redecl::make,
+      "neg_basic__exp" => neg_basic__exp::make,
+      "agg_depth__to" => agg_depth__to::make,
+      "agg_user__par" => agg_user__par::make,
+      "agg_bound_mix__par" => agg_bound_mix__par::make,
+      "agg_empty_rel__par" => agg_empty_rel__par::make,
+      "agg_const_args__exppar" => agg_const_args__exppar::make,
+      "disj__topar" => disj__topar::make,
+      "disj__redecl" => disj__redecl::make,
+      "disj__exp" => disj__exp::make,
+      "pat_args__par" => pat_args__par::make,
+      "rep_expr__exppar" => rep_expr__exppar::make,
+      "neg_in_disj__pari" => neg_in_disj__pari::make,
+      "mac_basic__run" => mac_basic__run::make,
+      "mac_basic__init" => mac_basic__init::make,
+      "mac_capture__exp" => mac_capture__exp::make,
+      "mac_gensym_disj__par" => mac_gensym_disj__par::make,
+      "mac_disj__exppar" => mac_disj__exppar::make,
+      "rnd_core_03__par" => rnd_core_03__par::make,
+      "rnd_core_06__ser" => rnd_core_06__ser::make,
+      "rnd_core_08__pari" => rnd_core_08__pari::make,
+      "rnd_core_11__par" => rnd_core_11__par::make,
+      "rnd_core_14__ser" => rnd_core_14__ser::make,
+      "rnd_core_16__pari" => rnd_core_16__pari::make,
+      "rnd_core_19__par" => rnd_core_19__par::make,
+      "rnd_core_22__ser" => rnd_core_22__ser::make,
+      "rnd_core_24__pari" => rnd_core_24__pari::make,
+      "rnd_core_27__par" => rnd_core_27__par::make,
+      "rnd_core_30__ser" => rnd_core_30__ser::make,
+      "rnd_agg_02__pari" => rnd_agg_02__pari::make,
+      "rnd_agg_05__par" => rnd_agg_05__par::make,
+      "rnd_agg_08__ser" => rnd_agg_08__ser::make,
+      "rnd_agg_10__pari" => rnd_agg_10__pari::make,
+      "rnd_agg_13__par" => rnd_agg_13__par::make,
+      "rnd_prec_01__ser" => rnd_prec_01__ser::make,
+      "rnd_prec_02__to" => rnd_prec_02__to::make,
+      "rnd_prec_04__par" => rnd_prec_04__par::make,
+      "rnd_prec_05__topar" => rnd_prec_05__topar::make,
+      "rnd_prec_07__pari" => rnd_prec_07__pari::make,
+      "rnd_prea_01__ser" => rnd_prea_01__ser::make,
+      "rnd_prea_03__pari" => rnd_prea_03__pari::make,
+      "rnd_prea_06__par" => rnd_prea_06__par::make,
       _ => panic!("no such program variant in this shard: {}", name),
    }
 }
